@@ -100,6 +100,10 @@ void LibSVMParser<IndexType, DType>::ParseBlock(
     const char *q = NULL;
     real_t label;
     real_t weight;
+    // every line but the first of a block starts at the end-of-line character of its predecessor
+    while (p != lend && (*p == '\n' || *p == '\r')) {
+      ++p;
+    }
     std::ptrdiff_t advanced = IgnoreCommentAndBlank(p, lend);
     p += advanced;
     int r = ParsePair<real_t, real_t>(p, lend, &q, label, weight);
